@@ -827,6 +827,34 @@ func checkC13E2E(c *Ctx) {
 			return
 		}
 	}
+	// ---- (F69, known finding) a complete plaintext request with something behind it before its answer: the empty line
+	// some HTTP clients append to a POST body, a second request in the same segment. The request in front is well-formed
+	// and would be answered; the connection's framing refuses the whole read and closes without a word.
+	m1 := "\x00\x01\x00\x06\x01\x01"
+	for _, pc := range []struct{ desc, raw string }{
+		{"a pair-setup start request followed by CRLF", fmt.Sprintf("POST /pair-setup HTTP/1.1\r\nHost: acc.local\r\nContent-Type: application/pairing+tlv8\r\nContent-Length: %d\r\n\r\n%s\r\n", len(m1), m1)},
+		{"two requests in one segment", "GET /accessories HTTP/1.1\r\nHost: acc.local\r\n\r\nGET /accessories HTTP/1.1\r\nHost: acc.local\r\n\r\n"},
+	} {
+		cn, err := net.DialTimeout("tcp", "127.0.0.1:"+acc.port, 2*time.Second)
+		if err != nil {
+			c.Violate("accessory does not accept connections any more", id, pc.desc, "connect", err.Error())
+			return
+		}
+		cn.Write([]byte(pc.raw))
+		cn.SetReadDeadline(time.Now().Add(3 * time.Second))
+		buf := make([]byte, 256)
+		n, rerr := cn.Read(buf)
+		cn.Close()
+		desc := "tcp plaintext connection: " + pc.desc
+		c.Count(desc, true, "e2e:plain-trailing")
+		if n == 0 || !bytes.HasPrefix(buf[:n], []byte("HTTP/1.")) {
+			c.Violate("a complete plaintext request is not answered when bytes follow it before its response (the connection is closed without a word)", id, map[string]interface{}{"scenario": desc, "request": trunc(pc.raw, 200)}, "an HTTP response to the request in front", fmt.Sprintf("%d bytes read, %v", n, rerr))
+		}
+		if !acc.Alive() {
+			c.Violate("remote input ends the accessory process", id, desc, "accessory keeps serving", "process exited")
+			return
+		}
+	}
 	// ---- an event that is kept back while a request of its connection is under way: controller 1 subscribes, sends the
 	// header of a request and withholds the body; controller 2 changes the value; controller 1 sends the body. Both get their
 	// answers, controller 1 its event, and the value can be written again afterwards (nothing is wedged)
